@@ -69,7 +69,7 @@ def expected(plan):
     return objs, trees
 
 
-def run_threads(ctx, rng, nwriters, rounds, large=False):
+def run_threads(ctx, rng, nwriters, rounds, large=False, identical=False):
     from dvc_data.hashfile.build import build
     from dvc_data.hashfile.db.local import LocalHashFileDB
     from dvc_data.hashfile.state import State
@@ -77,6 +77,32 @@ def run_threads(ctx, rng, nwriters, rounds, large=False):
 
     root = ctx.mkdtemp()
     plan = make_workspaces(rng, root, nwriters, rounds, large)
+    if identical:
+        # every writer stages a byte-identical directory: the same directory object from all of them, at the same time
+        import shutil
+
+        for w in range(1, nwriters):
+            for r in range(len(plan[w])):
+                shutil.rmtree(plan[w][r][0])
+                shutil.copytree(plan[0][r][0], plan[w][r][0])
+                plan[w][r] = (plan[w][r][0], dict(plan[0][r][1]))
+    barrier = threading.Barrier(nwriters) if identical else None
+
+    def meet():
+        if barrier is not None:
+            try:
+                barrier.wait(timeout=1.5)
+            except threading.BrokenBarrierError:
+                pass
+
+    from fsspec.callbacks import Callback
+
+    class MeetCb(Callback):
+        # `set_size` fires right after a batch's sources were opened: let everybody open before anybody copies
+        def set_size(self, size):
+            meet()
+            return super().set_size(size)
+
     fs = stores.fs_local()
     odb_path = os.path.join(root, "odb")
     os.makedirs(odb_path)
@@ -102,7 +128,8 @@ def run_threads(ctx, rng, nwriters, rounds, large=False):
             odb = LocalHashFileDB(fs, odb_path, state=st)  # every writer has its own handle on the shared store
             for d, files in plan[w]:
                 staging, meta, obj = build(odb, d, fs, "md5")
-                res = transfer(staging, odb, {obj.hash_info}, shallow=False)
+                meet()
+                res = transfer(staging, odb, {obj.hash_info}, shallow=False, **({"callback": MeetCb()} if identical else {}))
                 if res.failed:
                     raise RuntimeError("transfer reported failures: %s" % sorted(h.value for h in res.failed))
                 results.append((d, obj.oid))
@@ -420,11 +447,14 @@ def run(ctx):
         n = rng.choice([2, 3, 4, 8])
         rounds = rng.choice([1, 2, 3])
         large = i in (1, 9) or (ctx.tier == "thorough" and i % 10 == 1)
+        identical = (not large) and (i % 3 == 2)
         if large:
             n, rounds = min(n, 3), 1
-        root, plan, errors, results = run_threads(ctx, rng, n, rounds, large)
-        ctx.count("threads:large-files=%s" % large)
-        case = {"mode": "threads", "writers": n, "rounds": rounds, "run": i, "large_files": large,
+        if identical:
+            n, rounds = 6, 1
+        root, plan, errors, results = run_threads(ctx, rng, n, rounds, large, identical)
+        ctx.count("threads:large-files=%s identical-directories=%s" % (large, identical))
+        case = {"mode": "threads", "writers": n, "rounds": rounds, "run": i, "large_files": large, "identical_directories": identical,
                 "workspaces": [[{"/".join(k): md5hex(v) for k, v in files.items()} for _, files in wl] for wl in plan]}
         ctx.case(case)
         ctx.count("threads:%d" % n)
